@@ -376,11 +376,16 @@ func (p *Printer) semiOrNewl(s string, pos Pos) {
 	p.wantSpace = spaceRequired
 }
 
+// tabwriterSpecial are the bytes, other than a newline, which [tabwriter.Writer]
+// does not pass through as they are: it ends a cell at a tab or a vertical tab,
+// and a form feed flushes and ends the line.
+const tabwriterSpecial = "\t\v\f"
+
 func (p *Printer) writeLit(s string) {
 	// If p.tabWriter is nil, this is the nested printer being used to print
 	// <<- heredoc bodies, so the parent printer will add the escape bytes
 	// later.
-	if p.tabWriter != nil && strings.Contains(s, "\t") {
+	if p.tabWriter != nil && strings.ContainsAny(s, tabwriterSpecial) {
 		p.w.WriteByte(tabwriter.Escape)
 		defer p.w.WriteByte(tabwriter.Escape)
 	}
@@ -1616,7 +1621,22 @@ func (e *extraIndenter) WriteByte(b byte) error {
 		e.bufWriter.WriteByte('\t')
 	}
 	e.bufWriter.WriteByte(tabwriter.Escape)
-	e.bufWriter.Write(trimmed)
+	// The rest of the line is heredoc text as well, so escape what the
+	// tabwriter would otherwise interpret, leaving nested escapes alone.
+	escaped := false
+	for _, b := range trimmed {
+		switch {
+		case b == tabwriter.Escape:
+			escaped = !escaped
+			e.bufWriter.WriteByte(b)
+		case !escaped && strings.IndexByte(tabwriterSpecial, b) >= 0:
+			e.bufWriter.WriteByte(tabwriter.Escape)
+			e.bufWriter.WriteByte(b)
+			e.bufWriter.WriteByte(tabwriter.Escape)
+		default:
+			e.bufWriter.WriteByte(b)
+		}
+	}
 	e.curLine = e.curLine[:0]
 	return nil
 }
